@@ -63,6 +63,11 @@ def run(ctx):
                         crit, mi2 = rng.choice([(1e-6, 50), (1e-14, 100), (1e-3, 7), (1e-12, 2), (1e-13, 3), (1e-12, 1)])
                         cases.append({"fn": "newton", "coef": [hexf(x) for x in coef], "parity": parity, "crit": hexf(crit), "maxiter": mi2,
                                       "setting": "crit", "timeout": 900})
+        # long targets (k > 64) with all the weight on one coefficient or spread with one sign, at the top of the allowed norm
+        for k in ((65, 80) if quick else (65, 70, 75, 80)):
+            for parity in (0, 1):
+                for coef in ([0.9 * (1 - 1e-13)] + [0.0] * (k - 1), [0.9 * (1 - 1e-13) / k] * k):
+                    cases.append({"fn": "newton", "coef": [hexf(x) for x in coef], "parity": parity, "setting": "default", "timeout": 900})
         # the same targets held in single / half precision arrays (values rounded to float32/float16 first, so every dtype holds them exactly)
         import struct
         for k in ([1, 2, 3, 6, 12] if quick else [1, 2, 3, 4, 6, 9, 12, 20, 40]):
